@@ -55,8 +55,20 @@ def main():
     for fn in sorted(os.listdir(fd)) if os.path.isdir(fd) else []:
         if fn.endswith('.json'):
             allf.extend(json.load(open(os.path.join(fd, fn))))
+    import re
+    for e in allf:
+        what = re.sub(r'^(fixed: property=\w+ \w+ |KNOWN-FINDING: property=\w+ )', '', str(e.get('what', ''))).replace('\n', ' ')
+        if e.get('status') == 'fixed':
+            e['line'] = 'fixed: property=%s %s %s' % (e.get('property'), e.get('commit'), what)
+        else:
+            e['line'] = 'KNOWN-FINDING: property=%s %s' % (e.get('property'), what)
     with open(os.path.join(V, 'known_findings.json'), 'w') as f:
         json.dump({'findings': allf}, f, indent=1)
+    # the same list, one line per finding, in the format of the interface: "fixed: property=<id> <commit> <what failed>" (suppresses
+    # nothing) and "KNOWN-FINDING: property=<id> <what fails>" (an open finding, matched by the keys given in known_findings.json)
+    with open(os.path.join(V, 'known_findings.txt'), 'w') as f:
+        for e in allf:
+            f.write(e['line'] + '\n')
     print('MANIFEST.json: %d checks, %d not claimed; known_findings.json: %d entries' % (len(checks), len(not_app), len(allf)))
 
 
